@@ -1,0 +1,548 @@
+//! Verification hooks for the mqtt-out target's metrics (area UnitMetrics,
+//! feature `verif-hooks`). Add-only.
+//!
+//! A copy of `verif_hooks_mqttconn.rs` (that file belongs to another area and
+//! its event loop reports a constant in-flight figure) with two additions:
+//! the scripted library keeps an *in-flight* count per client, which
+//! `EventLoop::inflight` returns (QoS 1/2 publishes the client accepted, minus
+//! one per `PubAck`, zero after a connection error or refusal - what
+//! rumqttc's `MqttState::inflight` / `clean()` do), and the probe hands out
+//! the target's real `MqttMetrics` as `metrics::Source` / `GraphStatus`.
+//!
+//! The same seam the tests of this module use (`Client` / `EventLoop` /
+//! `ConnectionFactory`), but driven by a *scripted broker*: the real
+//! `MqttRunner::do_run` / `process_events` / `reconfigure` / `publish_msg` and
+//! the real `Connection::process` / `disconnect` / `mqtt_event_loop` run
+//! against a client whose `publish` behaves as the script says (accept,
+//! client error, slow) and an event loop whose `poll` yields the broker
+//! events the script injects. Everything the broker side sees is recorded.
+use std::cell::RefCell;
+use std::future::Future;
+use std::sync::atomic::Ordering::SeqCst;
+use std::sync::{Arc, Mutex};
+use std::time::Duration;
+
+use async_trait::async_trait;
+use ::mqtt::{
+    ClientError, ConnAck, ConnectReturnCode, ConnectionError, Event,
+    Incoming, MqttOptions, NetworkOptions, PubAck, QoS, Request,
+};
+use tokio::sync::mpsc;
+
+use super::super::config::{ClientId, Config, Destination};
+use super::super::connection::{
+    Client, Connection, ConnectionFactory, EventLoop, MqttPollResult,
+};
+use super::super::status_reporter::MqttStatusReporter;
+use super::{Mqtt, MqttRunner};
+use crate::comms::{DirectUpdate, Gate, Terminated};
+use crate::manager::{Component, TargetCommand};
+use crate::payload::Update;
+use crate::targets::Target;
+
+/// How `Client::publish` behaves from now on.
+#[derive(Clone, Copy, Debug, PartialEq, Eq)]
+pub enum PubMode {
+    /// returns `Ok(())` at once
+    Accept,
+    /// returns a `ClientError` at once
+    Fail,
+    /// returns `Ok(())` after this many seconds (of tokio time)
+    Slow(u64),
+}
+
+/// A broker-side event the event loop's `poll` will yield.
+#[derive(Clone, Copy, Debug, PartialEq, Eq)]
+pub enum BrokerEvent {
+    /// `ConnAck` with `Success`
+    Accept,
+    /// `ConnAck` with a refusal code
+    Refuse,
+    /// `Err(ConnectionError)`
+    Drop,
+    /// some other packet (`PubAck`)
+    Other,
+}
+
+/// What the scripted broker saw. `conn` numbers the clients that were
+/// actually used (first `poll`), from 0; clients created and dropped without
+/// ever polling are not counted.
+#[derive(Clone, Debug, PartialEq, Eq)]
+pub enum Seen {
+    Open { conn: usize, host: String, port: u16, client_id: String, cap: usize, credentials: Option<(String, String)> },
+    PollEnter { conn: usize },
+    Polled { conn: usize, ev: BrokerEvent },
+    /// `outcome`: 0 accepted, 1 client error, 2 slow (pending)
+    Publish { conn: usize, topic: String, payload: Vec<u8>, qos: u8, retain: bool, outcome: u8 },
+    /// a slow publish returned `Ok`
+    PublishDone { conn: usize, payload: Vec<u8> },
+    /// a slow publish was dropped before it returned (timeout)
+    PublishCancelled { conn: usize, payload: Vec<u8> },
+    Disconnect { conn: usize },
+}
+
+impl Seen {
+    /// true for what the event-loop task does, false for what the run loop does
+    pub fn is_event_loop(&self) -> bool {
+        matches!(self, Seen::Open { .. } | Seen::PollEnter { .. } | Seen::Polled { .. })
+    }
+}
+
+#[derive(Default)]
+struct BrokerState {
+    next_raw: usize,
+    /// raw id -> connection label, in order of first use
+    labels: Vec<usize>,
+    current: Option<(usize, mpsc::UnboundedSender<MqttPollResult>)>,
+    mode: Option<PubMode>,
+    log: Vec<Seen>,
+    created: usize,
+    /// raw id -> the library's in-flight figure of that client
+    inflight: Vec<u16>,
+}
+
+impl BrokerState {
+    fn label(&mut self, raw: usize) -> usize {
+        if let Some(p) = self.labels.iter().position(|r| *r == raw) {
+            p
+        } else {
+            self.labels.push(raw);
+            self.labels.len() - 1
+        }
+    }
+}
+
+type Broker = Arc<Mutex<BrokerState>>;
+
+thread_local! {
+    static BROKER: RefCell<Option<Broker>> = const { RefCell::new(None) };
+}
+
+fn current_broker() -> Broker {
+    BROKER.with(|b| b.borrow().clone()).expect("no scripted broker installed on this thread")
+}
+
+#[derive(Clone)]
+pub struct ScriptedClient {
+    raw: usize,
+    broker: Broker,
+}
+
+pub struct ScriptedEventLoop {
+    raw: usize,
+    broker: Broker,
+    options: MqttOptions,
+    network_options: NetworkOptions,
+    cap: usize,
+    rx: mpsc::UnboundedReceiver<MqttPollResult>,
+    tx: Option<mpsc::UnboundedSender<MqttPollResult>>,
+}
+
+struct SlowGuard {
+    conn: usize,
+    payload: Vec<u8>,
+    broker: Broker,
+    done: bool,
+}
+
+impl Drop for SlowGuard {
+    fn drop(&mut self) {
+        if !self.done {
+            self.broker.lock().unwrap().log.push(Seen::PublishCancelled {
+                conn: self.conn,
+                payload: std::mem::take(&mut self.payload),
+            });
+        }
+    }
+}
+
+#[async_trait]
+impl Client for ScriptedClient {
+    type EventLoopType = ScriptedEventLoop;
+
+    fn new(options: MqttOptions, cap: usize) -> (Self, Self::EventLoopType) {
+        let broker = current_broker();
+        let raw = {
+            let mut b = broker.lock().unwrap();
+            b.next_raw += 1;
+            b.created += 1;
+            b.inflight.push(0);
+            b.next_raw - 1
+        };
+        let (tx, rx) = mpsc::unbounded_channel();
+        let event_loop = ScriptedEventLoop {
+            raw,
+            broker: broker.clone(),
+            options,
+            network_options: NetworkOptions::default(),
+            cap,
+            rx,
+            tx: Some(tx),
+        };
+        (Self { raw, broker }, event_loop)
+    }
+
+    async fn publish<S, V>(
+        &self,
+        topic: S,
+        qos: QoS,
+        retain: bool,
+        payload: V,
+    ) -> Result<(), ClientError>
+    where
+        S: Into<String> + Send,
+        V: Into<Vec<u8>> + Send,
+    {
+        let topic = topic.into();
+        let payload: Vec<u8> = payload.into();
+        let (mode, conn) = {
+            let mut b = self.broker.lock().unwrap();
+            let conn = b.label(self.raw);
+            let mode = b.mode.unwrap_or(PubMode::Accept);
+            let outcome = match mode {
+                PubMode::Accept => 0,
+                PubMode::Fail => 1,
+                PubMode::Slow(_) => 2,
+            };
+            b.log.push(Seen::Publish {
+                conn,
+                topic,
+                payload: payload.clone(),
+                qos: qos as u8,
+                retain,
+                outcome,
+            });
+            if outcome == 0 && qos != QoS::AtMostOnce {
+                b.inflight[self.raw] = b.inflight[self.raw].saturating_add(1);
+            }
+            (mode, conn)
+        };
+        match mode {
+            PubMode::Accept => Ok(()),
+            PubMode::Fail => {
+                Err(ClientError::Request(Request::Disconnect(::mqtt::Disconnect)))
+            }
+            PubMode::Slow(secs) => {
+                let mut guard = SlowGuard {
+                    conn,
+                    payload,
+                    broker: self.broker.clone(),
+                    done: false,
+                };
+                tokio::time::sleep(Duration::from_secs(secs)).await;
+                guard.done = true;
+                let mut b = self.broker.lock().unwrap();
+                b.log.push(Seen::PublishDone {
+                    conn,
+                    payload: std::mem::take(&mut guard.payload),
+                });
+                if qos != QoS::AtMostOnce {
+                    b.inflight[self.raw] = b.inflight[self.raw].saturating_add(1);
+                }
+                Ok(())
+            }
+        }
+    }
+
+    async fn disconnect(&self) -> Result<(), ClientError> {
+        let mut b = self.broker.lock().unwrap();
+        let conn = b.label(self.raw);
+        b.log.push(Seen::Disconnect { conn });
+        Ok(())
+    }
+}
+
+#[async_trait]
+impl EventLoop for ScriptedEventLoop {
+    async fn poll(&mut self) -> MqttPollResult {
+        {
+            let mut b = self.broker.lock().unwrap();
+            let conn = b.label(self.raw);
+            if let Some(tx) = self.tx.take() {
+                let (host, port) = self.options.broker_address();
+                b.log.push(Seen::Open {
+                    conn,
+                    host,
+                    port,
+                    client_id: self.options.client_id(),
+                    cap: self.cap,
+                    credentials: self.options.credentials(),
+                });
+                b.current = Some((conn, tx));
+            }
+            b.log.push(Seen::PollEnter { conn });
+        }
+        match self.rx.recv().await {
+            Some(res) => {
+                let ev = match &res {
+                    Ok(Event::Incoming(Incoming::ConnAck(ConnAck {
+                        code: ConnectReturnCode::Success,
+                        ..
+                    }))) => BrokerEvent::Accept,
+                    Ok(Event::Incoming(Incoming::ConnAck(_))) => {
+                        BrokerEvent::Refuse
+                    }
+                    Err(_) => BrokerEvent::Drop,
+                    Ok(_) => BrokerEvent::Other,
+                };
+                let mut b = self.broker.lock().unwrap();
+                let conn = b.label(self.raw);
+                b.log.push(Seen::Polled { conn, ev });
+                match ev {
+                    BrokerEvent::Other => {
+                        b.inflight[self.raw] = b.inflight[self.raw].saturating_sub(1)
+                    }
+                    BrokerEvent::Refuse | BrokerEvent::Drop => {
+                        b.inflight[self.raw] = 0
+                    }
+                    BrokerEvent::Accept => {}
+                }
+                res
+            }
+            // a superseded event loop never hears from the broker again
+            None => std::future::pending().await,
+        }
+    }
+
+    fn mqtt_options(&self) -> &MqttOptions {
+        &self.options
+    }
+
+    fn network_options(&self) -> NetworkOptions {
+        self.network_options.clone()
+    }
+
+    fn set_network_options(
+        &mut self,
+        network_options: NetworkOptions,
+    ) -> &mut Self {
+        self.network_options = network_options;
+        self
+    }
+
+    fn inflight(&self) -> u16 {
+        self.broker.lock().unwrap().inflight[self.raw]
+    }
+}
+
+/// The body of the production factory (`impl ConnectionFactory for
+/// MqttRunner<mqtt::AsyncClient>` above), which is not generic over the
+/// client type: same options from the same config fields, same retry delay.
+impl ConnectionFactory for MqttRunner<ScriptedClient> {
+    type EventLoopType = ScriptedEventLoop;
+
+    type ClientType = ScriptedClient;
+
+    fn connect(
+        config: &Config,
+        status_reporter: Arc<MqttStatusReporter>,
+    ) -> Connection<Self::ClientType> {
+        let mut create_opts = MqttOptions::new(
+            config.client_id.clone(),
+            config.destination.host.clone(),
+            config.destination.port,
+        );
+        create_opts.set_request_channel_capacity(config.queue_size.into());
+        create_opts.set_clean_session(true);
+        create_opts.set_inflight(1000);
+        create_opts.set_keep_alive(Duration::from_secs(20));
+
+        if let (Some(username), Some(password)) =
+            (&config.username, &config.password)
+        {
+            create_opts.set_credentials(username, password);
+        }
+
+        Connection::new(
+            create_opts,
+            config.connect_retry_secs,
+            status_reporter,
+        )
+    }
+}
+
+/// The settings of an mqtt-out target, as plain data.
+#[derive(Clone, Debug, PartialEq, Eq)]
+pub struct ProbeConfig {
+    pub host: String,
+    pub port: u16,
+    pub client_id: String,
+    pub queue_size: u16,
+    pub topic_template: String,
+    pub connect_retry_secs: u64,
+    pub publish_max_secs: u64,
+    pub qos: i32,
+    pub username: Option<String>,
+    pub password: Option<String>,
+}
+
+impl ProbeConfig {
+    fn config(&self) -> Config {
+        Config {
+            destination: Destination { host: self.host.clone(), port: self.port },
+            qos: self.qos,
+            client_id: ClientId(self.client_id.clone()),
+            topic_template: self.topic_template.clone(),
+            connect_retry_secs: Duration::from_secs(self.connect_retry_secs),
+            publish_max_secs: Duration::from_secs(self.publish_max_secs),
+            queue_size: self.queue_size,
+            username: self.username.clone(),
+            password: self.password.clone(),
+        }
+    }
+}
+
+/// Counters of the target's own status reporter.
+#[derive(Clone, Copy, Debug, Default, PartialEq, Eq)]
+pub struct Counters {
+    pub established: bool,
+    pub connection_errors: usize,
+    pub connection_lost: usize,
+    pub publish_errors: usize,
+    pub in_flight: u16,
+}
+
+/// A real `MqttRunner` on a scripted broker.
+pub struct MqttMetricsProbe {
+    runner: Arc<MqttRunner<ScriptedClient>>,
+    cmd_tx: mpsc::Sender<TargetCommand>,
+    status: Arc<MqttStatusReporter>,
+    broker: Broker,
+}
+
+impl MqttMetricsProbe {
+    /// Installs a fresh scripted broker on the calling thread and builds a
+    /// real runner for `component`. The returned future is the real
+    /// `do_run` (without upstream links, as in the tests of this module); the
+    /// harness spawns it on a current-thread runtime of the same thread.
+    pub fn new(
+        component: Component,
+        config: &ProbeConfig,
+    ) -> (Self, impl Future<Output = Result<(), Terminated>> + Send + 'static)
+    {
+        let broker: Broker = Default::default();
+        BROKER.with(|b| *b.borrow_mut() = Some(broker.clone()));
+
+        let mut runner =
+            MqttRunner::<ScriptedClient>::new(config.config(), component);
+        let (pub_q_tx, pub_q_rx) = mpsc::unbounded_channel();
+        runner.pub_q_tx = Some(pub_q_tx);
+        let status = runner.status_reporter.clone();
+        let runner = Arc::new(runner);
+        let (cmd_tx, cmd_rx) = mpsc::channel(100);
+
+        let spawned = runner.clone();
+        let fut = async move {
+            spawned
+                .do_run::<MqttRunner<ScriptedClient>>(None, cmd_rx, pub_q_rx)
+                .await
+        };
+        (Self { runner, cmd_tx, status, broker }, fut)
+    }
+
+    /// The real `direct_update`.
+    pub async fn direct_update(&self, update: Update) {
+        self.runner.direct_update(update).await
+    }
+
+    /// Queues `TargetCommand::Reconfigure` with these settings.
+    pub fn reconfigure(&self, config: &ProbeConfig) -> bool {
+        let (_gate, mut gate_agent) = Gate::new(0);
+        let link = gate_agent.create_link();
+        let sources = non_empty_vec::NonEmpty::new(link.into());
+        let new_config = Target::Mqtt(Mqtt { sources, config: config.config() });
+        self.cmd_tx.try_send(TargetCommand::Reconfigure { new_config }).is_ok()
+    }
+
+    /// Queues `TargetCommand::Terminate`.
+    pub fn terminate(&self) -> bool {
+        self.cmd_tx.try_send(TargetCommand::Terminate).is_ok()
+    }
+
+    /// The broker does something the current event loop will see on its next
+    /// `poll`. False if no event loop is listening.
+    pub fn broker_event(&self, ev: BrokerEvent) -> bool {
+        let res: MqttPollResult = match ev {
+            BrokerEvent::Accept => Ok(Event::Incoming(Incoming::ConnAck(ConnAck {
+                session_present: false,
+                code: ConnectReturnCode::Success,
+            }))),
+            BrokerEvent::Refuse => Ok(Event::Incoming(Incoming::ConnAck(ConnAck {
+                session_present: false,
+                code: ConnectReturnCode::NotAuthorized,
+            }))),
+            BrokerEvent::Drop => Err(ConnectionError::NetworkTimeout),
+            BrokerEvent::Other => {
+                Ok(Event::Incoming(Incoming::PubAck(PubAck { pkid: 0 })))
+            }
+        };
+        let b = self.broker.lock().unwrap();
+        match &b.current {
+            Some((_, tx)) => tx.send(res).is_ok(),
+            None => false,
+        }
+    }
+
+    pub fn set_mode(&self, mode: PubMode) {
+        self.broker.lock().unwrap().mode = Some(mode);
+    }
+
+    /// Everything the broker side saw since the last call.
+    pub fn take_seen(&self) -> Vec<Seen> {
+        std::mem::take(&mut self.broker.lock().unwrap().log)
+    }
+
+    /// Number of `Client::new` calls so far (including clients never used).
+    pub fn clients_created(&self) -> usize {
+        self.broker.lock().unwrap().created
+    }
+
+    pub fn counters(&self) -> Counters {
+        let m = self.status.metrics();
+        Counters {
+            established: m.connection_established_state.load(SeqCst),
+            connection_errors: m.connection_error_count.load(SeqCst),
+            connection_lost: m.connection_lost_count.load(SeqCst),
+            publish_errors: m.publish_error_count.load(SeqCst),
+            in_flight: m.in_flight_count.load(SeqCst),
+        }
+    }
+
+    /// The target's metrics as the `metrics::Source` the manager renders.
+    pub fn metrics_source(&self) -> Arc<dyn crate::metrics::Source> {
+        self.status.metrics()
+    }
+
+    /// `GraphStatus::status_text` / `okay` of the target's metrics (what
+    /// `/status/graph` shows for the target).
+    pub fn graph_status(&self) -> (String, Option<bool>) {
+        use crate::comms::GraphStatus;
+        let m = self.status.metrics();
+        (m.status_text(), m.okay())
+    }
+
+    /// The scripted library's in-flight figure of the client in use.
+    pub fn lib_inflight(&self) -> Option<u16> {
+        let b = self.broker.lock().unwrap();
+        let (conn, _) = b.current.as_ref()?;
+        let raw = *b.labels.get(*conn)?;
+        b.inflight.get(raw).copied()
+    }
+
+    /// The settings the runner currently holds.
+    pub fn held_config(&self) -> ProbeConfig {
+        let c: arc_swap::Guard<Arc<Config>> = self.runner.config.load();
+        ProbeConfig {
+            host: c.destination.host.clone(),
+            port: c.destination.port,
+            client_id: c.client_id.0.clone(),
+            queue_size: c.queue_size,
+            topic_template: c.topic_template.clone(),
+            connect_retry_secs: c.connect_retry_secs.as_secs(),
+            publish_max_secs: c.publish_max_secs.as_secs(),
+            qos: c.qos,
+            username: c.username.clone(),
+            password: c.password.clone(),
+        }
+    }
+}
